@@ -11,6 +11,8 @@ from .model import flat_graph
 from .ref import ref_select
 
 ARG_VALUES = ["0", "1", "4", "True", "False"]
+INPUT_VALUES = {"tuple2": ["(5, True)", "(0, False)", "(31, False)"], "dict": ["{'a': 3, 'b': False}", "{'a': 0, 'b': True}"],
+                "list3": ["[1, 2, True]", "[9, 0, False]"], "none": ["None", "4"]}
 
 
 def draw_args(d: Draw, dg: dict, p_skip_default: float = 0.5) -> List[str]:
@@ -112,18 +114,20 @@ def scn_sched(d: Draw, prof: dict, *, selections: float = 0.0, history: float = 
         g = flat_graph(spec, "main")
         non_setup = sorted(n for n in g["nodes"] if n[0] == "s" and not (
             dg["stmts"][n[1]]["k"] == "call" and spec["funcs"][dg["stmts"][n[1]]["fn"]]["setup"]))
-        scalar = [n for n in non_setup if dg["stmts"][n[1]]["k"] == "call" and not dg["stmts"][n[1]]["unpack"]
-                  and spec["funcs"][dg["stmts"][n[1]]["fn"]]["ret"] in ("int", "bool")]
-        with_succ = [n for n in scalar if any(m[0] == "s" for m in g["succ"][n])]
+        shaped = [n for n in non_setup if dg["stmts"][n[1]]["k"] == "call" and not dg["stmts"][n[1]]["unpack"]
+                  and spec["funcs"][dg["stmts"][n[1]]["fn"]]["ret"] in ("int", "bool", "tuple2", "dict", "list3")]
+        with_succ = [n for n in shaped if any(m[0] == "s" for m in g["succ"][n])]
         if with_succ:
             i_node = d.pick(with_succ)
             o_node = d.pick(sorted(m for m in g["succ"][i_node] if m[0] == "s"))
             ops.append(dict(op="compose", inst="E:main", inputs=[["id", i_node[1]]], outputs=[["id", o_node[1]]], single=True, **{"as": "cmp"}))
-            if d.bool(0.5):
-                ops.append(dict(op="call", inst="cmp", args=[str(d.int(1, 50))]))
+            if d.bool(0.6):
+                rt = spec["funcs"][dg["stmts"][i_node[1]]["fn"]]["ret"]
+                # the supplied value has the shape the node would have produced (consumers may index it)
+                ops.append(dict(op="call", inst="cmp", args=[d.pick(INPUT_VALUES[rt]) if rt in INPUT_VALUES else str(d.int(1, 50))]))
     flat = all(s_["k"] != "dag" for s_ in dg["stmts"])
     if selections and flat and d.bool(selections):
-        sel = draw_selection(d, spec, "main")
+        sel = draw_selection(d, spec, "main", p_tag=0.4 if prof.get("p_tag") else 0.0)
         ops.append(dict(op="executor", inst="E:main", sel=sel, ex="e0"))
         if dg["has_setup"] and d.bool(0.35):
             ops.append(dict(op="setup", inst="E:main"))   # executor created before the setup nodes ran
@@ -137,7 +141,7 @@ P_C02 = gen.profile(**{**gen.SCHED, "swarm": ("resources", "p_dep", "max_args", 
                        "max_depth": 2, "p_kwarg": 0.3, "p_index": 0.5, "p_unpack": 0.4,
                        "ret_types": [("int", 5), ("bool", 2), ("tuple2", 3), ("list3", 1), ("dict", 1), ("none", 1)]})
 P_C03 = gen.profile(**{**gen.SCHED, "swarm": ("resources", "p_dep", "max_args", "p_seq", "p_prio"), "w_nested": 1.2, "max_depth": 1,
-                       "p_nested_flag": 0.3, "p_reuse": 0.5, "p_setup": 0.12, "p_flag": 0.3, "p_unpack": 0.5, "p_fn_unpack": 0.1,
+                       "p_nested_flag": 0.3, "p_tag": 0.25, "p_setup_in_nested": 1.0, "p_reuse": 0.5, "p_setup": 0.12, "p_flag": 0.3, "p_unpack": 0.5, "p_fn_unpack": 0.1,
                        "ret_types": [("int", 4), ("bool", 2), ("tuple2", 3), ("dict", 1), ("none", 1)]})
 P_C04 = gen.profile(**{**gen.SCHED, "swarm": ("resources", "p_dep", "max_args", "p_seq", "p_prio"), "shape_bias": [("wide", 3), ("uniform", 1)], "mc": (1, 3), "p_flag": 0.05,
                        "resources": [("thread", 4), ("async_thread", 3), ("main_thread", 2)]})
@@ -153,7 +157,27 @@ def g_c02(d: Draw) -> dict:
 
 
 def g_c03(d: Draw) -> dict:
-    return scn_sched(d, P_C03, selections=0.45, history=0.4, compose=0.08)
+    scn = scn_sched(d, P_C03, selections=0.45, history=0.4, compose=0.08)
+    return inner_setup_first(d, scn)
+
+
+def inner_setup_first(d: Draw, scn: dict) -> dict:
+    """Sometimes: an inner DAG is set up (or called) on its own BEFORE the outer DAG that nests it is described."""
+    spec = scn["program"]
+    main = spec["dags"]["main"]
+    inner = [s_["dag"] for s_ in main["stmts"] if s_["k"] == "dag" and spec["dags"][s_["dag"]]["has_setup"]]
+    if not inner or not d.bool(0.6):
+        return scn
+    others = [n for n in spec["order"] if n != "main"]
+    pre: List[dict] = []
+    for dn in sorted(set(inner)):
+        if d.bool(0.5):
+            pre.append(dict(op="setup", inst=f"E:{dn}"))
+        else:
+            pre.append(dict(op="call", inst=f"E:{dn}", args=draw_args(d, spec["dags"][dn], 0.3)))
+    scn["prebuild"] = [dict(dags=others)]
+    scn["clients"][0] = pre + [dict(op="build", dags=["main"])] + scn["clients"][0]
+    return scn
 
 
 def g_c04(d: Draw) -> dict:
@@ -364,7 +388,8 @@ reg(Prop("C07", g_c07, {"cprio_table": "C07.a", "order_mc1": "C07.d", "raise": "
 
 
 # ----------------------------------------------------------------------------- selection / debug / setup family
-P_C12 = gen.profile(**{**gen.GRAPH, "p_setup": 0.12, "p_debug": 0.08, "n_stmts": (2, 12), "p_tag": 0.35, "p_tag_is_id": 0.3})
+P_C12 = gen.profile(**{**gen.GRAPH, "p_setup": 0.12, "p_debug": 0.08, "n_stmts": (2, 12), "p_tag": 0.35, "p_tag_is_id": 0.3,
+                       "ret_types": [("int", 6), ("tuple2", 2), ("dict", 1), ("none", 1)], "p_index": 0.0, "p_keyed_return": 0.5})
 P_C13 = gen.profile(**{**gen.GRAPH, "p_debug": 0.35, "p_setup": 0.08, "n_stmts": (2, 10)})
 P_C11 = gen.profile(**{**gen.GRAPH, "p_setup": 0.4, "n_stmts": (2, 9), "p_tag": 0.15})
 
@@ -440,7 +465,14 @@ def g_c11(d: Draw) -> dict:
                     b["flag"] = src
                 return dict(program=spec, clients=[[dict(op="build", dags=spec["order"], expect_raise=["TawaziBaseException"])]])
             if dg["params"]:
-                b["args"] = list(b["args"]) + [["v", dg["params"][0][0], []]]
+                src = ["v", dg["params"][0][0], []]
+                ch = d.pick(["arg", "kwarg", "flag"])
+                if ch == "arg":
+                    b["args"] = list(b["args"]) + [src]
+                elif ch == "kwarg":
+                    b["kwargs"] = list(b["kwargs"]) + [["extra", src]]
+                else:
+                    b["flag"] = src
                 return dict(program=spec, clients=[[dict(op="build", dags=spec["order"], expect_raise=["TawaziUsageError", "TawaziBaseException"])]])
     ops: List[dict] = []
     cur = "E:main"
@@ -497,8 +529,7 @@ P_C18 = gen.profile(**{**gen.GRAPH, "p_setup": 0.1, "n_stmts": (2, 9), "p_flag":
                        "ret_types": [("int", 5), ("none", 1)]})
 P_C19 = gen.profile(**{**gen.GRAPH, "p_setup": 0.1, "n_stmts": (2, 10), "p_flag": 0.2, "p_default": 0.5, "n_params": (0, 3), "p_tag": 0.2,
                        "p_index": 0.6, "p_kwarg": 0.3, "ret_types": [("int", 5), ("tuple2", 3), ("dict", 2), ("list3", 1), ("none", 1)]})
-INPUT_VALUES = {"tuple2": ["(5, True)", "(0, False)", "(31, False)"], "dict": ["{'a': 3, 'b': False}", "{'a': 0, 'b': True}"],
-                "list3": ["[1, 2, True]", "[9, 0, False]"], "none": ["None", "4"]}
+
 P_C15 = gen.profile(**{**gen.SCHED, "p_setup": 0.0, "n_stmts": (2, 8), "p_flag": 0.15, "n_params": (1, 3), "p_default": 0.5,
                        "prio": (-2, 5), "p_prio": 0.7, "p_tag": 0.15})
 
@@ -518,7 +549,8 @@ def g_c18(d: Draw) -> dict:
     elif mode == "target":
         ops.append(dict(op="executor", inst="E:main", ex="w", sel={"T": T}, cache_in="c.pkl"))
     else:
-        T = T[:1]
+        if d.bool(0.6):
+            T = T[:1]
         ops.append(dict(op="executor", inst="E:main", ex="w", cache_deps_of=T, cache_in="c.pkl"))
     ops.append(dict(op="exrun", ex="w", args=args))
     ops.append(dict(op="read_cache", file="c.pkl", inst="E:main"))
@@ -533,6 +565,12 @@ def g_c18(d: Draw) -> dict:
     if fresh:
         ops[-1]["inst"] = "F:main"   # restart on a freshly built instance (nothing set up, nothing computed)
     ops.append(dict(op="exrun", ex="r", args=draw_args(d, dg, 0.0) if d.bool(0.35) else args))
+    if mode != "deps" and d.bool(0.25):
+        # refresh in place: restart from the file and write the results back to the same file
+        ops.append(dict(op="executor", inst="E:main", ex="rw", from_cache="c.pkl", cache_in="c.pkl",
+                        **({"sel": {"T": T}} if mode == "target" else {})))
+        ops.append(dict(op="exrun", ex="rw", args=args))
+        ops.append(dict(op="read_cache", file="c.pkl", inst="E:main"))
     if d.bool(0.3):
         # second round on the SAME path with another selection: the file is rewritten, the restart must see the new content
         ops.append(dict(op="executor", inst="E:main", ex="w2", cache_in="c.pkl"))
@@ -542,6 +580,15 @@ def g_c18(d: Draw) -> dict:
         ops.append(dict(op="exrun", ex="r2", args=args))
     scn = base_scn(spec, ops)
     scn["prebuild"].append(dict(env="F", dags=spec["order"]))
+    calls_idx = [i for i, s_ in enumerate(dg["stmts"]) if s_["k"] == "call" and not spec["funcs"][s_["fn"]]["setup"]]
+    if mode == "whole" and calls_idx and d.bool(0.25):
+        # a later caching run on the same path FAILS: the earlier, good file must stay usable
+        j = len(ops)
+        ops.append(dict(op="executor", inst="E:main", ex="wf", cache_in="c.pkl"))
+        ops.append(dict(op="exrun", ex="wf", args=args))
+        scn["faults"] = [dict(op=[0, j + 1], path=[["main", d.pick(calls_idx)]], when="late", kind="exc")]
+        ops.append(dict(op="executor", inst="E:main", ex="rf", from_cache="c.pkl"))
+        ops.append(dict(op="exrun", ex="rf", args=args))
     return scn
 
 
@@ -661,6 +708,12 @@ P_C16 = gen.profile(**{**gen.SCHED, "n_stmts": (1, 5), "p_flag": 0.1, "n_params"
 def g_c16(d: Draw) -> dict:
     spec = gen.gen_program(d, P_C16)
     dg = spec["dags"]["main"]
+    if d.bool(0.12):
+        # two (or three) threads call the shared DAG; the first node of each call can only finish once a peer's call is inside a
+        # node as well: concurrent runs must not share anything they could starve each other on
+        n = d.int(2, 3)
+        clients = [[dict(op="call", inst="E:main", args=draw_args(d, dg))] for _ in range(n)]
+        return dict(program=spec, prebuild=[dict(dags=spec["order"])], clients=clients, rendezvous=True, fair_only=False)
     nclients = d.int(2, 3)
     clients: List[List[dict]] = []
     fnames = sorted(spec["funcs"])
